@@ -24,8 +24,18 @@ type bceResidue struct {
 
 var bceLine = regexp.MustCompile(`^(.+\.go):(\d+):(\d+): Found (IsInBounds|IsSliceInBounds)`)
 
-func runBCE(goos, goarch string) (*bceResidue, error) {
-	cmd := exec.Command("go", "build", "-gcflags="+modPath+"/...=-l -d=ssa/check_bce/debug=1", "./...")
+func runBCE(goos, goarch string, overlay map[string][]byte) (*bceResidue, error) {
+	args := []string{"build", "-gcflags=" + modPath + "/...=-l -d=ssa/check_bce/debug=1"}
+	if overlay != nil {
+		jp, cleanup, err := writeOverlayFile(overlay)
+		if err != nil {
+			return nil, err
+		}
+		defer cleanup()
+		args = append(args, "-overlay", jp)
+	}
+	args = append(args, "./...")
+	cmd := exec.Command("go", args...)
 	cmd.Dir = repoDir
 	cmd.Env = append(os.Environ(), "GOFLAGS=-mod=mod", "GOPROXY=off", "GOSUMDB=off", "GOTOOLCHAIN=local", "GOWORK=off", "CGO_ENABLED=0")
 	if goos != "" {
